@@ -12,5 +12,6 @@ pub mod par;
 pub mod payload;
 pub mod prng;
 pub mod rig;
+pub mod sched;
 pub mod seq;
 pub mod sink;
